@@ -441,7 +441,7 @@ func propSpecs() map[string]PropSpec {
 	add := func(s PropSpec) { m[s.ID] = s }
 	add(PropSpec{ID: "C02", Level: "exploration", Classes: []string{"reply", "dump", "content", "handle", "crash"},
 		Rule: "seeded state-aware sequences over all 22 procedures (live/dead/garbage handles, boundary names/offsets, restarts, direct and rpc adapters) compared reply-by-reply and by whole-tree dumps with the reference model; distinct = distinct (procedure, outcome class, argument class) triples observed in sequences that contain a failure, a restart and a file beyond the direct blocks",
-		Plan:  seqPlan("C02", 40, 1200),
+		Plan:  seqPlan("C02", 160, 1600),
 		Assume: []string{"reference model conventions of DESIGN.md §2.2", "open known findings are avoided by the generators (KNOWN_FINDINGS.txt)"}})
 	add(PropSpec{ID: "C04", Level: "exploration", Classes: []string{"fsck", "crash"},
 		Rule: "fsck of the logical disk (repository's own decoders) after every operation of seeded sequences, after concurrent histories and on crash images; distinct = distinct (owned-block-set, tree) hashes of states that have an indirect block or a nested directory",
@@ -454,16 +454,16 @@ func propSpecs() map[string]PropSpec {
 		Plan: withConc(withCrash(seqPlan("C05", 32, 600), "C05", 4, 60), "C05", 24, 300, false)})
 	add(PropSpec{ID: "C08", Level: "exploration", Classes: []string{"handle", "reply", "crash", "lin"},
 		Rule: "inode-reuse-heavy sequences with restarts; every handle bound to one object; a pool of dead handles presented to every procedure and handle position; distinct = distinct (procedure, outcome, argument class) triples incl. deadprobe (procedure, position, reused?) classes",
-		Plan: withWindow(seqPlan("C08", 32, 600), "C08")})
+		Plan: withWindow(seqPlan("C08", 96, 900), "C08")})
 	add(PropSpec{ID: "C09", Level: "exploration", Classes: []string{"afterfail", "crash"},
 		Rule: "sequences on nearly-full disks of five sizes; after every failing RPC: free block/inode counts unchanged, whole tree = reference (in which the op never happened), fsck + cache/disk coherence; distinct = distinct (procedure, outcome, argument class) triples in sequences where a failing transaction had dirtied state",
-		Plan: seqPlan("C09", 30, 600)})
+		Plan: seqPlan("C09", 60, 800)})
 	add(PropSpec{ID: "C10", Level: "exploration", Classes: []string{"twin", "cache", "crash"},
 		Rule: "sequences with >100 live objects and multi-block directories; every 20 ops: flush, compare live server with a server recovered from a copy of the image and with itself after a clean restart (handles, attributes, times, listing order, bytes), and cached inodes/name caches/allocators with the logical disk; distinct = distinct state hashes at comparison points",
-		Plan: withConc(seqPlan("C10", 24, 500), "C10", 8, 100, false)})
+		Plan: withConc(seqPlan("C10", 48, 600), "C10", 16, 150, false)})
 	add(PropSpec{ID: "C12", Level: "exploration", Classes: []string{"content", "crash"},
 		Rule: "block-recycling sequences on small disks (pattern f(write id, offset) never zero), shrink to aligned/unaligned sizes and regrow, free-space sweep at the end; every READ and whole-tree dump compared with the reference; distinct = distinct (procedure, outcome, argument class) triples",
-		Plan: withCrash(seqPlan("C12", 30, 600), "C12", 3, 40)})
+		Plan: withCrash(seqPlan("C12", 90, 900), "C12", 3, 40)})
 	add(PropSpec{ID: "C01", Level: "fault_enumeration", Classes: []string{"crash"},
 		Rule: "each seeded workload (all mutating RPCs, three stability levels, multi-block writes, truncations, big-file removal) is recorded on the crash disk; EVERY prefix cut of its trace, one (thorough: three) lossy image(s) per cut with un-barriered writes lost/reordered, and cuts of sampled recovery runs (depth 2) are recovered by the real MakeNfs; the recovered tree must equal reference state S_j for some lo<=j<=hi, handles preserved, fsck clean, continuation workload in lock-step with S_j; distinct = distinct (recovered tree, on-disk state, lo, hi) with lo<hi (an operation in flight or an unstable suffix)",
 		Plan: func(tier string, seed uint64) []Job {
@@ -484,7 +484,7 @@ func propSpecs() map[string]PropSpec {
 		}})
 	add(PropSpec{ID: "C03", Level: "exploration", Classes: []string{"lin", "crash", "hang", "deadlock"},
 		Rule: "short histories (3-4 clients x 4-6 conflicting RPCs on shared names/files/directories, big file freed by the shrinker in the window, cold caches, children numbered below their directories) recorded at the client boundary with one atomic clock and checked by porcupine against the reference model, the final tree included as a read; schedules widened by seeded yields at lock/commit hooks and disk calls, GOMAXPROCS 2/4/16; distinct = distinct fingerprints of the global (hook site, client, inode) event sequence, counted only if some history had a contended acquire or an abort-and-relock",
-		Plan: withWindow(withConc(noJobs, "C03", 48, 800, false), "C03")})
+		Plan: withWindow(withConc(noJobs, "C03", 120, 1200, false), "C03")})
 	add(PropSpec{ID: "C06", Level: "exploration", Classes: []string{"deadlock", "hang", "crash"},
 		Rule: "every inode-lock request is observed with the locks its transaction holds: (a) single-threaded census over every parent/child pair of trees whose children are numbered both below and above their directories (LOOKUP incl. '.'/'..', READDIR/READDIRPLUS, CREATE/REMOVE, RENAME within/across directories, over existing targets, coinciding inodes, aliased and dead handles; warm and cold caches), (b) concurrent stress with the wait-for detector armed and seeded yields; violations: self-wait, wait-for cycle (both detected before blocking), cycle in the accumulated lock-order graph, transaction abandoned with locks held, > 1000 begin/abort cycles without any commit, wedged server; distinct = distinct (call site, ascending/descending) edge classes and distinct interleaving fingerprints",
 		Plan: func(tier string, seed uint64) []Job {
@@ -496,12 +496,12 @@ func propSpecs() map[string]PropSpec {
 			for i := 0; i < n; i++ {
 				js = append(js, Job{Engine: "census", Profile: "C06", Seed: seed, Case: i})
 			}
-			return withWindow(withConc(func(string, uint64) []Job { return js }, "C06", 32, 600, false), "C06")(tier, seed)
+			return withWindow(withConc(func(string, uint64) []Job { return js }, "C06", 64, 800, false), "C06")(tier, seed)
 		},
 		Assume: []string{"no gate locks: every other mutex is a leaf taken while inode locks are held (true for this code base)", "fresh (just allocated, free) inodes are exempt from the order: nobody can hold a free inode while waiting for another lock"}})
 	add(PropSpec{ID: "C14", Level: "exploration", Classes: []string{"race", "crash", "hang"},
 		Rule: "the harness is built with -race (which also instruments /repo and GoJournal) and runs the conflicting concurrent histories of C03 (same names, same files, shrinker active, READDIRPLUS during updates, restarts, direct and rpc adapters) with the lock monitor and seeded yields on; every report of the race detector with a repository or GoJournal frame is a violation (de-duplicated by the pair of first repository frames); distinct = distinct interleaving fingerprints, counted only when locks were contended",
-		Plan: withConc(noJobs, "C14", 16, 200, true),
+		Plan: withConc(noJobs, "C14", 32, 300, true),
 		Assume: []string{"the race detector only observes the interleavings that were executed", "GORACE=halt_on_error=0: reports are collected from the log files, exit codes are not trusted"}})
 	add(PropSpec{ID: "C15", Level: "exploration", Exhaustive: true, Classes: []string{"size", "crash"},
 		Rule: "EXHAUSTIVE over the stated ranges: every disk size from the smallest one MakeNfs accepts (found by trying downwards) for 400 (thorough: 3000) consecutive sizes and every size within +-40 of 32768*k (k=1,2,3) is formatted by the real MakeNfs; per size: regions ordered/disjoint/inside the disk, fresh bitmaps mark exactly the non-data blocks + the root directory and inodes 0,1, allocators agree, root usable; sampled sizes (thorough: all of the dense range) are filled to NOSPC (free must reach 0, every data block owned once, none outside) and emptied again (free = initial); distinct = distinct (bitmap blocks, size mod 8, position relative to 32768) classes",
@@ -535,7 +535,7 @@ func propSpecs() map[string]PropSpec {
 	add(PropSpec{ID: "C16", Level: "exploration", Classes: []string{"xdr", "crash", "harness"},
 		Rule: "for every exported nfstypes type with an Xdr method (registry regenerated from /repo/nfstypes/nfs_xdr.go at build time): values generated by reflection (every union discriminant from a pool incl. illegal ones, optional/list shapes 0/1/many, lengths 0/1/3/4/63/64/65/255/256/1000) are encoded by nfstypes and by go-rpcgen's rfc1813 (generated from the RFC's .x file) and must give the same bytes / the same error; decode(encode(v)) re-encodes identically and equals the RFC decoder's value; truncated encodings must be rejected; mutated and random byte strings must be accepted/rejected alike with equal values; 16 hand-derived RFC 1813 byte vectors; all 22+6 procedure numbers (and unknown ones) sent with RFC-encoded arguments through rfc1057 to a recording handler registered like cmd/go-nfsd does; distinct = distinct (type, discriminant/optional shape) combinations",
 		Plan: func(tier string, seed uint64) []Job {
-			n, it := 8, 60
+			n, it := 16, 60
 			if tier == "thorough" {
 				n, it = 64, 400
 			}
@@ -575,9 +575,9 @@ func propSpecs() map[string]PropSpec {
 	add(PropSpec{ID: "C11", Level: "exploration", Classes: []string{"crash", "hang", "canary", "deadlock"},
 		Rule: "structured hostile argument generation for all 22 NFS and 6 MOUNT procedures of nfs.Nfs (direct and rpc adapters) and of simple.Nfs: handles of length 0-64 with arbitrary bytes / valid number and any generation / numbers at the table ends, names of length 0..70000 incl. '.', '..', NUL, offsets/counts/sizes/cookies from boundary pools up to 2^64-1, counts that disagree with the data supplied, every enumeration value incl. illegal ones; in five file-system states (empty, deep, nearly full, shrinking, cold caches); plus byte-level mutation of well-formed framed RPC calls sent to an rfc1057 server registered like cmd/go-nfsd; every request is logged before it is sent, the child must survive (ulimit -v 8 GiB), answer (watchdog + lock monitor) and pass the canary (GETATTR root, create/write/read/remove, fsck) afterwards; distinct = distinct (procedure, handle-length class, argument class) combinations",
 		Plan: func(tier string, seed uint64) []Job {
-			n := 10
+			n := 40
 			if tier == "thorough" {
-				n = 100
+				n = 200
 			}
 			var js []Job
 			for i := 0; i < n; i++ {
@@ -588,9 +588,9 @@ func propSpecs() map[string]PropSpec {
 	add(PropSpec{ID: "C13", Level: "exploration", Classes: []string{"enum", "crash"},
 		Rule: "page-by-page enumerations (READDIR and READDIRPLUS) of directories of 10 shapes (empty ... multi-block, freed slots, long names) with every count/dircount/maxcount class, resumption from every cookie previously returned, adds/removes between pages and a concurrent mutator; distinct = distinct (shape, procedure, count class, dircount class) combinations in runs with >= 1 multi-page enumeration",
 		Plan: func(tier string, seed uint64) []Job {
-			n := 20
+			n := 60
 			if tier == "thorough" {
-				n = 400
+				n = 600
 			}
 			var js []Job
 			for i := 0; i < n; i++ {
@@ -601,7 +601,7 @@ func propSpecs() map[string]PropSpec {
 	add(PropSpec{ID: "C19", Level: "exploration", Classes: []string{"limit", "crash"},
 		Rule: "names of length limit-2..limit+2, 255, 256, 1000+ (CREATE/MKDIR/SYMLINK/RENAME, then LOOKUP/list/rename/restart); WRITEs of wtpref, wtmax-1, wtmax, wtmax+1, 2*wtmax bytes at six offsets and three stability levels with read-back; file sizes maxfilesize-4097..+4097 and up to 2^64-1 by WRITE and SETATTR with reads, restart, truncation; beyond => error and unchanged tree/free counts; distinct = distinct (limit, delta, procedure, outcome) cases",
 		Plan: func(tier string, seed uint64) []Job {
-			n := 6
+			n := 12
 			if tier == "thorough" {
 				n = 60
 			}
